@@ -89,6 +89,15 @@ def rule_C(ck, lib, sk):
                 r = sk.exit_result(x)[0][1]
                 rem = sk.rem_of(r)
                 val = v[2][0]
+                halves = (val[0] == "tproj" and rem[0] == "tproj" and val[1] == rem[1] and (val[2], rem[2]) == (0, 1) and val[1][0] == "call"
+                          and val[1][1].endswith("::split_at"))
+                if halves:
+                    base_, cnt_ = val[1][2]
+                    g = any(c[0] == "true" and c[1][0] == "bin" and ((c[1][1] == "Lt" and c[2] is False) or (c[1][1] == "Ge" and c[2] is True)) and c[1][3] == cnt_
+                            and c[1][2][0] == "call" and c[1][2][1].endswith("::len") and c[1][2][2] == (base_,) for c in x.conds)
+                    ck.ok("C08-V", "%s:value" % name, "payload / remainder = rest.split_at(count)")
+                    ck.judge(g, "C08-C", "%s:length-guard" % name, "taken only when rest.len() >= count", "payload split is not guarded by `rest.len() < count`")
+                    continue
                 ok = (val[0] == "index" and rem[0] == "index" and val[1] == rem[1] and val[2][0] == "struct" and val[2][1].endswith("RangeTo")
                       and rem[2][0] == "struct" and rem[2][1].endswith("RangeFrom") and dict(val[2][2]).get("end") == dict(rem[2][2]).get("start"))
                 ck.judge(ok, "C08-V", "%s:value" % name, "payload = rest[..count], remainder = rest[count..]",
